@@ -17,9 +17,9 @@ EXTENDS Backtest, Json
 
 CONSTANTS NS, RECS, MaxOrders
 
-GenParams == (1 :> [n |-> 0, recs |-> {}, acts |-> {}, fatalAt |-> {}])
+GenParams == (1 :> [n |-> 0, recs |-> {}, acts |-> {}, fatalAt |-> {}, srcFailAt |-> {}])
 
-AllParams == { [n |-> n, recs |-> recs, acts |-> acts, fatalAt |-> {}] :
+AllParams == { [n |-> n, recs |-> recs, acts |-> acts, fatalAt |-> {}, srcFailAt |-> {}] :
                  n \in NS, recs \in RECS, acts \in SUBSET (UNION {1..m : m \in NS}) }
 
 \* (a dataset holds at least one market item: MarketDataInMemory::new refuses any other)
